@@ -74,7 +74,15 @@ func c11line(t *simrt.Tape, tags []string) string {
 		}
 		return fmt.Sprint(t.Choose(50))
 	}
-	switch t.Choose(35) {
+	switch t.Choose(37) {
+	case 35, 36:
+		// a well-formed FETCH response with more items than the client's per-message buffer, none of them a literal
+		k := []int{31, 32, 33, 34, 70}[t.Choose(5)]
+		var items []string
+		for i := 0; i < k; i++ {
+			items = append(items, []string{fmt.Sprintf("BINARY.SIZE[%d] %d", i+1, i), "FLAGS (\\Seen)", fmt.Sprintf("BODY[%d] NIL", i+1), "UID 7"}[t.Choose(4)])
+		}
+		return "* " + small() + " FETCH (" + strings.Join(items, " ") + ")"
 	case 32, 33, 34:
 		// a literal announcing an enormous size in a position where the client buffers the string; the data never comes
 		size := []string{"536870912", "2147483648", "4294967296", "1099511627776", "9223372036854775807", "99999999999999999999"}[t.Choose(6)]
